@@ -6,7 +6,7 @@
     relation has no cycle; equivalence is symmetric and recorded once; a parent link is backed by a listing; lists are
     well-typed.  [WF] (HeapProofs.v) is the observer's well-formedness of DESIGN.md (Appendix B), relative to liveness. *)
 From Coq Require Import List String Bool Arith Relations.
-From LC Require Import HeapDefs HeapBase HeapInv HeapOps HeapProofs HeapTotal HeapBad HeapFrame HeapWitness.
+From LC Require Import HeapDefs HeapBase HeapInv HeapOps HeapProofs HeapTotal HeapBad HeapFrame HeapWitness HeapLive.
 Import ListNotations.
 
 (** step_wf — every one of the 40 op constructors preserves the invariant, for every state, every structural-equality
@@ -117,14 +117,23 @@ Theorem C09_gc_frame : forall live s x, getd (gc_with live s) x = gc_obj live (l
 Proof. exact HeapInv.getd_gc_with. Qed.
 Print Assumptions C09_gc_frame.
 
-(** "equivalence never yields destroyed variables", partial: right after a call that may destroy objects, every variable
-    listed as equivalent was alive when the call finished.
-    NOT PROVED: that [alive (gc s) = alive s] (destruction does not change reachability), hence that this is an invariant
-    of all histories for liveness as recomputed later; the correspondence run compares equivalentVariable(i) of the real
-    objects with the model's lists after every op instead, and ASan watches the accesses. *)
-Theorem C09_equivalents_alive_partial : forall s a b, In b (eqs_of (gc s) a) -> alive s b = true /\ alive s a = true.
-Proof. exact HeapWitness.eqs_live_after_gc. Qed.
-Print Assumptions C09_equivalents_alive_partial.
+(** destruction does not change what is reachable *)
+Theorem C09_alive_gc : forall s x, alive (gc s) x = alive s x.
+Proof. exact HeapLive.alive_gc. Qed.
+Print Assumptions C09_alive_gc.
+
+(** every call either leaves the state as it was (refusal) or ends with the destruction of what is unreferenced *)
+Theorem C09_step_settled : forall seq s o s' r, step true seq s o = Ok s' r -> s' = s \/ exists s1, s' = gc s1.
+Proof. exact HeapLive.step_settled. Qed.
+Print Assumptions C09_step_settled.
+
+(** equivalence never yields destroyed variables, and the recorded parent is the observed parent: in every state of every
+    history (no hypothesis on the history: holds beyond the carve-out too) every variable listed as equivalent and every
+    recorded parent is alive *)
+Theorem C09_equivalents_never_destroyed : forall seq u ops s', run true seq (init u) ops = Some s' ->
+  (forall a b, In b (eqs_of s' a) -> alive s' b = true) /\ (forall x p, parent_of s' x = Some p -> alive s' p = true).
+Proof. intros seq u ops s' H. exact (HeapLive.run_clean seq ops (init u) s' (HeapLive.clean_init u) H). Qed.
+Print Assumptions C09_equivalents_never_destroyed.
 
 (** the code before the fix commits violated the property: four families, witnesses by computation *)
 Theorem C09_unfixed_lookalike_removal_refuted :
